@@ -33,7 +33,9 @@ func (u *userGraph) IsEdge(i, j int) bool {
 	}
 	return false
 }
-func (u *userGraph) Neighbours(v int) []int { return append(make([]int, 0, len(u.nb[v])+3), u.nb[v]...) }
+func (u *userGraph) Neighbours(v int) []int {
+	return append(make([]int, 0, len(u.nb[v])+3), u.nb[v]...)
+}
 func (u *userGraph) Degrees() []int {
 	d := make([]int, len(u.nb))
 	for i := range d {
